@@ -67,3 +67,6 @@ func (self *MaxJobsSemaphore) VerifParked() int {
 	nl := reflect.ValueOf(self.cond).Elem().FieldByName("notify")
 	return int(uint32(nl.FieldByName("wait").Uint()) - uint32(nl.FieldByName("notify").Uint()))
 }
+
+// VerifFQName returns the fully qualified name the metadata was created with.
+func (self *Metadata) VerifFQName() string { return self.fqname }
